@@ -276,7 +276,7 @@ package leader
 
 //@ func (e *kvElection) logWithContext(ctx)
 //@   tags C09
-//@   flag pure untagged_panics
+//@   flag pure
 
 //@ func (e *kvElection) getMetricsLabels()
 //@   flag pure
